@@ -103,6 +103,36 @@ func callerDataFamily(w *World, prop string) ([]*Obligation, []string) {
 		if !files[short] {
 			continue
 		}
+		// reflection: a function that walks the caller's values with package reflect never takes a
+		// reference into them (Addr, UnsafeAddr, UnsafePointer): what it hands on are copies
+		// (Interface), so a pointer-receiver method or a later write cannot reach the caller's data
+		usesReflect, takesAddr := false, ""
+		for _, b := range fn.Blocks {
+			for _, in := range b.Instrs {
+				ci, ok := in.(ssa.CallInstruction)
+				if !ok {
+					continue
+				}
+				if f := ci.Common().StaticCallee(); f != nil && f.Pkg != nil && f.Pkg.Pkg.Path() == "reflect" {
+					usesReflect = true
+					switch f.Name() {
+					case "Addr", "UnsafeAddr", "UnsafePointer":
+						if f.Signature.Recv() != nil {
+							p, _ := w.posAndSrc(in)
+							takesAddr = f.Name() + " at " + p
+						}
+					}
+				}
+			}
+		}
+		if usesReflect {
+			goal := "true"
+			if takesAddr != "" {
+				goal = "false"
+			}
+			out = append(out, &Obligation{Name: name + "/reflect-ref#1", Kind: "reflect-ref", Func: name, Goal: goal, PC: "true", Props: []string{"C18"},
+				Comment: "no reference into a value of the caller's is taken through reflection (Addr, UnsafeAddr, UnsafePointer)" + ifs(takesAddr != "", " — "+takesAddr, ""), Custom: "(assert " + not(goal) + ")"})
+		}
 		base := w.Contracts.ByName[name]
 		ct := deriveContract(base, name)
 		fx := newFnExec(w, fn, ct)
